@@ -682,8 +682,9 @@ pub fn sliding_window_seeds() -> Vec<Seed> {
     v
 }
 
-/// `all_seeds` without the two seeds whose images / GC passes are an order of magnitude larger
-/// (18 files, 32 queues): for the engines that enumerate crash points or faults per image.
+/// `all_seeds` without the three seeds whose images / GC passes are an order of magnitude larger
+/// (18 files, 32 queues, 300 retained records over 70 files): for the engines that enumerate crash
+/// points or faults per image.
 pub fn all_seeds_light() -> Vec<Seed> {
-    all_seeds().into_iter().filter(|s| !s.name.starts_with("many-queues") && !s.name.starts_with("many-files:b@0,a@0..17")).collect()
+    all_seeds().into_iter().filter(|s| !s.name.starts_with("many-queues") && !s.name.starts_with("many-files:b@0,a@0..17") && !s.name.starts_with("hoarder:a retains 300")).collect()
 }
